@@ -207,13 +207,13 @@ func TestTrace(t *testing.T) {
 	}
 
 	// 1. the TLC-enumerated domain: every pattern against every host (quick: the pairs
-	//    whose combined length is at most 5)
+	//    whose combined length is at most 4, or 5 when the pattern has a wildcard)
 	for _, p := range v.Pats {
 		hosts := v.Hosts
 		if !full {
 			hosts = nil
 			for _, h := range v.Hosts {
-				if len(p)+len(h) <= 5 {
+				if n := len(p) + len(h); n <= 4 || (n == 5 && hasWild(p)) {
 					hosts = append(hosts, h)
 				}
 			}
